@@ -41,9 +41,19 @@ HEADLINE = "TwistedProps.C54.ftp_paths_inside_root"
 RULE = ("sessions: login (user / anonymous / refused / re-login) then 1..12 command lines drawn from CWD CDUP PWD LIST NLST "
         "RETR STOR SIZE MDTM MKD RMD DELE RNFR RNTO USER PASS QUIT PASV + junk, arguments built from a hostile piece "
         "alphabet ('..', '.', '', NUL, backslash, CR, LF, 0xff, ß, globs, list flags, names of the prefix-sharing siblings, "
-        "real names) joined by '/', absolute/relative/double-slash/trailing-slash; root as bytes- or text-mode FilePath; "
-        "anonymous root = the user root or a sub-directory of it; plus direct toSegments calls on the same alphabet; "
-        "distinct = set of (command, #targets, #children, cwd changed, raised) over the session")
+        "real names) joined by '/', absolute/relative/double-slash/trailing-slash; ~17-29% of the path arguments are DECORATED: "
+        "names going down + 1..3 dot-dot look-alikes ('..', '.', '', '...' with 1..3 junk items inserted anywhere: every C0/C1 control, "
+        "DEL, NBSP, soft hyphen, lone UTF-8 lead/continuation bytes, or exactly one of ~60 suffix / prefix tokens (;type=i ;1 ::$DATA ~1 %00 "
+        "blanks file: C: …, 8% followed by LF), %2e %2f %5c %00 %252e, backslash, ';type=i', '::$DATA', BOM, ZWSP; "
+        "or an encoded '..': %2e%2E, overlong C0 AE, fullwidth / one-dot-leader UTF-8 bytes) + a name outside or inside the root, "
+        "joined by '/' or by a separator look-alike (%2f, backslash, %5c, U+2215, fullwidth solidus, overlong C0 AF, ':'); 3% are LONG "
+        "(7..257 segments around powers of two with '..' runs ending just below / at / above the root, segments of 254..4096 "
+        "characters); root as bytes- or text-mode FilePath; user root = <tmp>/vroot or (30% of the sessions) a small directory inside "
+        "it (empty / empty and deep / one file + one directory) that the session empties, removes (RMD /), recreates and goes on "
+        "using; anonymous root = the user root or <tmp>/vroot/sub (inside, around, or disjoint from the user root); 6% of the sessions "
+        "repeat the same commands under two or three logins in one connection; plus direct toSegments calls on the same "
+        "alphabet (8% long, up to 1000 segments); "
+        "distinct = set of (command, #targets, #children, cwd changed, decorated/long argument, raised) over the session + mode, roots, re-login")
 ASSUMES = [
     "POSIX only (os.sep == '/'); filesystem encoding utf-8",
     "no symbolic links below the root (excluded by the statement)",
@@ -54,6 +64,10 @@ ASSUMES = [
     "_isGlobbingExpression verdict, os.listdir result) are arbitrary: the theorems quantify over all of them",
     "stat-like probes of a lexical ancestor of the root (os.makedirs(root) looks at root's parent) are not a touch "
     "outside the root: the kernel traverses the ancestors for every access anyway",
+    "the root directory itself is not outside the root: RMD / on an empty root removes it (and MKD / recreates it); "
+    "the snapshot of the scratch tree is compared outside the roots of the shells that were logged in",
+    "all cases run in ONE process against the same scratch location, in sequence: state kept on a class or module "
+    "(rather than on the shell / protocol instance) carries over from one session to the next and is judged there",
 ]
 TRUSTED = ["harness/py2lean.py (translator: ftp.toSegments is regenerated into lean/Generated/Ftp.lean on every run — the "
            "for-loop over path.split('/') as List.foldlM of the generated loop body, str.split as the translator's fixed pySplit, "
@@ -69,7 +83,9 @@ MANIFEST = {
             "shell._path never raises InsecurePath and returns exactly root + the utf-8 encoded segments, and every path handed to the "
             "filesystem (targets and listed children) is normalised and has the root's segment list as a prefix; built on the "
             "posixpath/FilePath model and theorems of C26.  Model tied to ftp.py by differential runs of real FTP sessions "
-            "(StringTransport, real DTP on a memory reactor, scratch root with prefix-sharing siblings) and of toSegments; "
+            "(StringTransport, real DTP on a memory reactor, scratch root with prefix-sharing siblings; decorated dot-dot look-alikes, "
+            "dot-dot with a suffix / prefix token that software strips (;type=i ;1 ::$DATA ~1 blanks %00 …), separator look-alikes, 7..257-segment and 4096-character arguments, small user roots that are emptied and removed, the same "
+            "commands under several logins) and of toSegments; toSegments_verbatim: names are passed on byte for byte; "
             "toSegments itself is regenerated from ftp.py by the translator on every run (loop as a fold) and proved equal to the "
             "model's toSegments for every cwd and path (gen_toSegments).",
     "note": "trusts Lean kernel, the hand-written models (Fs/Ftp.lean, Fs/Path.lean; differentially tied), CPython posixpath/str semantics, "
@@ -236,19 +252,37 @@ FILES = ["vroot/a.txt", "vroot/sp ace", "vroot/é.txt", "vroot/sub/b.txt", "vroo
 DIRS = ["vroot/empty", "vroot/sub/deep/deeper", "empty"]
 
 
+JAIL = ["j", "a", "i", "l"]      # the scratch tree sits four levels below the temporary directory: a changed twisted that
+#                                  climbs a few '..' above the root (mutation / seeded runs) still lands in scratch space,
+#                                  where the snapshot sees it, instead of in /tmp or /
+
+
+def top():
+    base()
+    return _BASE[1]
+
+
 def base():
     if not _BASE:
-        b = os.path.realpath(tempfile.mkdtemp(prefix="C54-"))
-        atexit.register(shutil.rmtree, b, True)
-        _BASE.append(b)
+        t = os.path.realpath(tempfile.mkdtemp(prefix="C54-"))
+        atexit.register(shutil.rmtree, t, True)
+        b = os.path.join(t, *JAIL)
+        os.makedirs(b)
+        _BASE.extend([b, t])
     return _BASE[0]
 
 
 def build_tree():
     b = base()
-    for n in os.listdir(b):
-        p = os.path.join(b, n)
-        shutil.rmtree(p) if os.path.isdir(p) else os.remove(p)
+    d = top()
+    for keep in JAIL + [None]:
+        os.makedirs(d, exist_ok=True)
+        for n in os.listdir(d):
+            if n != keep:
+                p = os.path.join(d, n)
+                shutil.rmtree(p) if os.path.isdir(p) and not os.path.islink(p) else os.remove(p)
+        if keep is not None:
+            d = os.path.join(d, keep)
     for d in DIRS:
         os.makedirs(os.path.join(b, d), exist_ok=True)
     for f in FILES:
@@ -258,21 +292,31 @@ def build_tree():
             fh.write("content of " + f)
 
 
-def outside_snapshot():
-    """everything below the base that is not below base/vroot: names, kinds, contents"""
-    b = base()
-    snap = []
+def full_snapshot():
+    """everything below the top of the scratch space: relative path -> 'D' | file content"""
+    b = top()
+    snap = {}
     for dp, dn, fn in os.walk(b):
-        if dp == b:
-            dn[:] = sorted(d for d in dn if d != "vroot")
-            snap.append(("D", "vroot", os.path.isdir(os.path.join(b, "vroot")) or None))
-        for d in sorted(dn):
-            snap.append(("D", os.path.relpath(os.path.join(dp, d), b), True))
-        for f in sorted(fn):
+        for d in dn:
+            snap[os.path.relpath(os.path.join(dp, d), b)] = "D"
+        for f in fn:
             p = os.path.join(dp, f)
             with open(p, "rb") as fh:
-                snap.append(("F", os.path.relpath(p, b), fh.read()))
-    return sorted(snap, key=repr)
+                snap[os.path.relpath(p, b)] = fh.read()
+    return snap
+
+
+def outside_of(snap, rootlist):
+    """the part of a snapshot that is not a root in use nor below one (the root directory itself is not
+    *outside* the root: `RMD /` on an empty root removes it, which the statement allows)"""
+    b = os.fsencode(top())
+    rels = [_segs(os.fsencode(r))[len(_segs(b)):] for r in rootlist]
+    out = {}
+    for k, v in snap.items():
+        ks = _segs(os.fsencode(k))
+        if not any(ks[:len(r)] == r for r in rels):
+            out[k] = v
+    return out
 
 
 class Realm(ftp.BaseFTPRealm):
@@ -284,10 +328,15 @@ class Realm(ftp.BaseFTPRealm):
         return self.home
 
 
+HOMES = ["", "empty", "sub/deep/deeper", "sub/deep"]      # user root = <tmp>/vroot/<home>
+
+
 def roots(case):
     b = base()
-    user = os.path.join(b, "vroot")
-    anon = user if case.get("anon", "same") == "same" else os.path.join(user, "sub")
+    vroot = os.path.join(b, "vroot")
+    home = case.get("home", "")
+    user = os.path.join(vroot, home) if home else vroot
+    anon = user if case.get("anon", "same") == "same" else os.path.join(vroot, "sub")
     if case.get("mode", "text") == "bytes":
         user, anon = os.fsencode(user), os.fsencode(anon)
     return anon, user
@@ -363,7 +412,7 @@ def run_session(case):
         return _cache[key]
     _quiet_logging()
     build_tree()
-    before = outside_snapshot()
+    before = full_snapshot()
     anon, user = roots(case)
     realm = Realm(anon, user)
     p = portal.Portal(realm)
@@ -433,8 +482,11 @@ def run_session(case):
         for dc in _REACTOR.getDelayedCalls():
             if dc.active():
                 dc.cancel()
-    res = {"steps": steps, "outside_changed": outside_snapshot() != before}
-    if len(_cache) > 8:
+    # roots in use: those of the shells that were logged in; before any login, the user root (so that
+    # the whole scratch tree outside it is watched)
+    used = sorted({st["root"] for st in steps if st["root"] is not None}) or [os.fsencode(user)]
+    res = {"steps": steps, "outside_changed": outside_of(full_snapshot(), used) != outside_of(before, used)}
+    if len(_cache) > 1200:                # the engine asks for all model lines first, then for the runs
         _cache.clear()
     _cache[key] = res
     return res
@@ -517,11 +569,20 @@ def oracle(c, out):
     return None
 
 
+def _dotty(piece):
+    """a decorated dot segment: not '.', '..' or '' itself, but nothing except dots is left once the junk is removed"""
+    core = "".join(ch for ch in piece if ch == ".")
+    rest = [ch for ch in piece if ch != "." and (ch.isalnum() and ord(ch) < 128)]
+    return piece not in ("", ".", "..") and core in (".", "..") and not rest
+
+
 def tag(c, out):
     if c["op"] == "seg":
         p = c["path"]
         feats = "".join(ch for ch, t in (("A", p.startswith("/")), ("D", ".." in p.split("/")), ("d", "." in p.split("/")),
-                                         ("E", "" in p.split("/")[1:]), ("0", "\0" in p), ("C", bool(c["cwd"]))) if t)
+                                         ("E", "" in p.split("/")[1:]), ("0", "\0" in p), ("C", bool(c["cwd"])),
+                                         ("J", any(_dotty(x) for x in p.split("/"))), ("P", "%" in p or "\\" in p),
+                                         ("L", p.count("/") > 8), ("W", any(len(x) > 200 for x in p.split("/")))) if t)
         return f"seg:{feats}:{'raise' if out.startswith('!') else 'ok'}"
     if out.startswith("!"):
         return "session:" + out
@@ -531,8 +592,12 @@ def tag(c, out):
         word = st["line"].split(b" ", 1)[0].decode("latin-1").upper()[:5]
         if not word.isalpha():
             word = "?"
-        sig.add(f"{word}{len(set(st['targets']))}{min(len(set(st['extra'])), 2)}{'c' if st['cwd0'] != [s.decode('latin-1') for s in st['cwd']] else ''}")
-    return c.get("mode", "text")[0] + c.get("anon", "same")[0] + ":" + ",".join(sorted(sig))
+        arg = st["line"].split(b" ", 1)[1].decode("latin-1") if b" " in st["line"] else ""
+        feat = ("J" if any(_dotty(x) for x in arg.split("/")) else "") + ("L" if arg.count("/") > 8 else "")
+        sig.add(f"{word}{len(set(st['targets']))}{min(len(set(st['extra'])), 2)}{'c' if st['cwd0'] != [s.decode('latin-1') for s in st['cwd']] else ''}{feat}")
+    logins = sum(1 for st in r["steps"] if st["auth0"] == "I" and st["auth"] == "A")
+    return (c.get("mode", "text")[0] + c.get("anon", "same")[0] + str(HOMES.index(c.get("home", ""))) + ("r" if logins > 1 else "") + ":" +
+            ",".join(sorted(sig)))
 
 
 # ---------------------------------------------------------------------------------------------
@@ -546,7 +611,112 @@ HOSTILE = ["..", ".", "", "...", "..\0", "\0", "a\0b", "../vroot-evil", "vroot-e
 CMDS_PATH = ["CWD", "LIST", "NLST", "RETR", "STOR", "SIZE", "MDTM", "MKD", "RMD", "DELE"]
 
 
+# --- decorated dot segments: '..' / '.' / '' with junk inserted anywhere.  toSegments must keep such a piece verbatim
+# (it is a plain name); any later layer that strips / decodes / normalises names turns it into a real '..'.
+JUNK_CH = ([chr(c) for c in range(0x00, 0x20)] + ["\x7f"] + [chr(c) for c in range(0x80, 0xa1)] +
+           ["\xad", "\xb7", "\xc0", "\xc2", "\xc3", "\xe2", "\xef", "\xfe", "\xff", " ", " "])
+JUNK_STR = ["%2e", "%2E", "%2f", "%2F", "%5c", "%5C", "%00", "%0d", "%0a", "%20", "%252e", "\\", ";", ":", "'", '"', "`", "$", "&", "|",
+            "~", "*", "?", "+", "=", "@", "#", "!", ",", ";type=i", "::$DATA", "\r\0", "\xc2\xa0", "\xe2\x80\x8b", "\xef\xbb\xbf"]
+DOTTY = ["..", "..", "..", "..", ".", "", "..."]
+ENCODED_DOTS = ["%2e%2E", "%2E%2e", "%2E%2E", ".%2e", "%2e.", "%2e", "%252e%252e", "%c0%ae%c0%ae", "\xc0\xae\xc0\xae", "\xc0\xae.",
+                "\xef\xbc\x8e\xef\xbc\x8e", "\xe2\x80\xa4\xe2\x80\xa4", "\xc2.\xc2.", ".\xc3.", "&#46;&#46;", "\\056\\056", "%u002e%u002e",
+                "\xb7\xb7", "..%00", "%00..", "..%2f", "..%5c"]
+SEPLIKE = ["%2f", "%2F", "\\", "%5c", "%5C", "%252f", "\xe2\x88\x95", "\xef\xbc\x8f", "\xc0\xaf", "%c0%af", ":", "\\\\", "\0"]
+TAILS = ["vroot-evil/secret.txt", "vroot-evil", "secret.txt", "vrootX/secret.txt", "a.txt", "sub", "sub/b.txt", "etc/passwd", "x",
+         "sub-evil/x.txt", "empty", "c.txt", "vroot/a.txt"]
+
+
+DOWNS = [[], [], ["sub"], ["sub", "deep"], ["sub", "deep", "deeper"], ["empty"], ["vroot-evil"]]
+
+
+# decorations that real software strips as a whole: exactly this token after / before a dot-dot
+SUFFIX_TOKENS = [";type=i", ";type=a", ";type=d", ";TYPE=I", ";1", ";", "::$DATA", ":Zone.Identifier", ":", " ", "  ", "\t", "\r", "\n",
+                 "\r\0", "\0", "%00", "%20", "%0d", "%0a", "~", "~1", "*", "?", "\\", ".", " .", ". ", "\x85", "\xa0", "\x1f", "\x0b", "\x0c",
+                 "\xad", "#", "#x", "?x=1", "\xc2\xa0", "\xe2\x80\x8b", ",v", ".lnk", "@"]
+PREFIX_TOKENS = [" ", "  ", "\t", "\r", "\n", "\0", "%20", "%00", "\\\\?\\", "file:", "C:", "c:", "~", "\xef\xbb\xbf", "\xa0", "\x85", "\x1f", "\xad", "-",
+                 "--", "./", "'", '"']
+
+
+def gen_decorated(rng):
+    r = rng.random()
+    if r < 0.18:
+        return rng.choice(ENCODED_DOTS)
+    if r < 0.43:
+        base = rng.choice(["..", "..", "..", "."])
+        if rng.random() < 0.7:
+            p = base + rng.choice(SUFFIX_TOKENS)
+            return p + "\n" if rng.random() < 0.08 else p       # what a regex `$` lets through after the token
+        return (rng.choice(PREFIX_TOKENS) + base).replace("/", "")
+    chars = list(rng.choice(DOTTY))
+    for _ in range(rng.choice([1, 1, 1, 2, 3])):
+        j = rng.choice(JUNK_CH) if rng.random() < 0.7 else rng.choice(JUNK_STR)
+        chars.insert(rng.randint(0, len(chars)), j)
+    return "".join(chars)
+
+
+def gen_decorated_path(rng):
+    """[names going down] + 1..3 dot-dot look-alikes + [a name outside / inside the root], joined by '/' or by
+    something a later layer might take for a separator"""
+    down = list(rng.choice(DOWNS))
+    if rng.random() < 0.25:
+        sep = rng.choice(SEPLIKE)                       # '..%2fvroot-evil%2fsecret.txt', '..\\..\\secret.txt'
+        ups = [rng.choice(["..", "..", ".", gen_decorated(rng)]) for _ in range(rng.choice([1, 1, 2, 3]))]
+        tail = rng.choice(TAILS).split("/") if rng.random() < 0.8 else []
+        pieces = down + ups + tail
+        k = rng.randint(0, len(down))                   # the part before k keeps the real separator
+        p = "/".join(pieces[:k] + [sep.join(pieces[k:])])
+    else:
+        ups = [gen_decorated(rng) if rng.random() < 0.8 else ".." for _ in range(rng.choice([1, 1, 2, 3]))]
+        tail = [rng.choice(TAILS)] if rng.random() < 0.6 else []
+        p = "/".join(down + ups + tail)
+    r = rng.random()
+    if r < 0.3:
+        p = "/" + p
+    elif r < 0.35:
+        p = "//" + p
+    if rng.random() < 0.08:
+        p += "/"
+    return p
+
+
+LONG_N = [7, 8, 9, 15, 16, 17, 31, 32, 33, 34, 35, 63, 64, 65, 100, 127, 128, 129, 255, 256, 257]
+
+
+def gen_long_path(rng, cap=300):
+    """many segments (around powers of two) and / or very long segments; '..' runs that end just below, at, or
+    above the root"""
+    n = min(rng.choice(LONG_N), cap)
+    r = rng.random()
+    name = rng.choice(["sub", "a", "x", "deep", "n1"])
+    if r < 0.35:
+        ups = rng.choice([n - 1, n, n + 1, n + 2, 1, 2])
+        p = "/".join([name] * n + [".."] * ups)
+    elif r < 0.5:
+        p = "/".join([rng.choice([".", "", name, ".."]) for _ in range(n)])
+    elif r < 0.65:
+        p = "/".join([rng.choice(NAMES) for _ in range(n)] + ["..", "..", rng.choice(TAILS)])
+    elif r < 0.8:
+        seg = rng.choice(["A", "\xe9", "."]) * rng.choice([254, 255, 256, 1023, 1024, 4096])
+        p = "/".join(rng.sample([seg, "..", name, seg + "..", ".." + seg], 3))
+    else:
+        p = "/".join([name] * n) + "/" + "/".join([".."] * (n + 1)) + "/" + rng.choice(TAILS)
+    if rng.random() < 0.4:
+        p = "/" + p
+    if rng.random() < 0.3:
+        p = p + "/" + rng.choice(TAILS)
+    return p[:15000]
+
+
 def gen_path(rng, hostile=0.5):
+    r = rng.random()
+    if r < 0.22 * (0.5 + hostile):
+        return gen_decorated_path(rng)
+    if r < 0.22 * (0.5 + hostile) + 0.03:
+        return gen_long_path(rng)
+    return gen_plain_path(rng, hostile)
+
+
+def gen_plain_path(rng, hostile=0.5):
     n = rng.choice([0, 1, 1, 2, 2, 3, 4, 6])
     pieces = [rng.choice(HOSTILE) if rng.random() < hostile else rng.choice(NAMES) for _ in range(n)]
     p = "/".join(pieces)
@@ -585,9 +755,17 @@ def gen_session(rng):
     else:
         lines += [rng.choice(["CWD sub", "PASS pw", "USER", "USER ", "RNTO x"])]
     hostile = rng.choice([0.2, 0.5, 0.8])
+    home = rng.choice(HOMES) if rng.random() < 0.3 else ""
+    if rng.random() < 0.06:
+        return gen_relogin_session(rng, lines, hostile, home)
     for _ in range(rng.randint(1, 12)):
         r = rng.random()
-        if r < 0.62:
+        if home and r < 0.3:
+            # a small (empty / nearly empty) root: remove what is in it, the root itself, and go on using it
+            lines.append(rng.choice(["RMD", "RMD", "RMD", "DELE", "MKD", "CWD", "SIZE"]) + " " +
+                         rng.choice(["/", ".", "", "..", "/.", "deeper", "deeper/..", "c.txt", "/deeper", "empty", "n1", "n1/n2",
+                                     "../deeper", "../empty", "../..", "./"]))
+        elif r < 0.62:
             cmd = rng.choice(CMDS_PATH)
             if cmd in ("LIST", "NLST", "RETR", "STOR") and rng.random() < 0.85:
                 lines.append("@pasv")
@@ -615,18 +793,51 @@ def gen_session(rng):
         else:
             lines.append(rng.choice(["NOOP", "TYPE I", "TYPE A", "SYST", "", " ", "CWD", "XYZ /..", "RNTO ../x", "PASS pw", "MODE S",
                                      "STRU F", "OPTS x", "SITE ..", "cwd", "\xdfIZE a.txt", "LI\xdfT"]))
-    return {"op": "session", "mode": rng.choice(["text", "bytes"]), "anon": rng.choice(["same", "sub"]), "lines": lines}
+    c = {"op": "session", "mode": rng.choice(["text", "bytes"]), "anon": rng.choice(["same", "sub"]), "lines": lines}
+    if home:
+        c["home"] = home
+    return c
+
+
+LOGINS = [["USER user", "PASS pw"], ["USER anonymous", "PASS a@b"]]
+
+
+def gen_relogin_session(rng, lines, hostile, home):
+    """the SAME commands under two (or three) logins in one connection: whatever the first shell resolved, listed or
+    cached must not leak into the second one (the two roots differ when anon == 'sub' or home is set)"""
+    block = []
+    for _ in range(rng.randint(1, 4)):
+        cmd = rng.choice(["SIZE", "MDTM", "CWD", "RETR", "LIST", "NLST", "DELE", "STOR", "MKD", "RMD"])
+        if cmd in ("RETR", "LIST", "NLST", "STOR"):
+            block.append("@pasv")
+        arg = rng.choice(["a.txt", "b.txt", "sub", "sub/b.txt", "/", "", "c.txt", "deep", "deeper", "empty", "/a.txt", "x.txt"]) \
+            if rng.random() < 0.7 else gen_path(rng, hostile)
+        block.append(cmd + " " + arg)
+    first = rng.choice(LOGINS)
+    second = LOGINS[1] if first is LOGINS[0] else LOGINS[0]
+    lines = list(first) + block + list(second) + block
+    if rng.random() < 0.3:
+        lines += list(first) + block
+    c = {"op": "session", "mode": rng.choice(["text", "bytes"]), "anon": rng.choice(["same", "sub", "sub"]), "lines": lines}
+    if home:
+        c["home"] = home
+    return c
 
 
 def gen_seg(rng):
     cwd = [rng.choice(NAMES) for _ in range(rng.choice([0, 0, 1, 2, 3]))]
     if rng.random() < 0.05:
         cwd.append(rng.choice(["..", "", ".", "a/b"]))
+    if rng.random() < 0.08:
+        return {"op": "seg", "cwd": cwd, "path": gen_long_path(rng, 1000)}
     return {"op": "seg", "cwd": cwd, "path": gen_path(rng, rng.choice([0.3, 0.7, 1.0]))}
 
 
-def S(lines, mode="text", anon="same"):
-    return {"op": "session", "mode": mode, "anon": anon, "lines": lines}
+def S(lines, mode="text", anon="same", home=""):
+    c = {"op": "session", "mode": mode, "anon": anon, "lines": lines}
+    if home:
+        c["home"] = home
+    return c
 
 
 def corpus():
@@ -655,6 +866,28 @@ def corpus():
            "RNTO", "RNTO sub/z.txt", "SIZE sub/z.txt"]),
         S(U + ["TYPE A", "@pasv", "STOR n.txt", "STOR ../m.txt", "SIZE n.txt", "@pasv", "RETR a.txt", "TYPE I", "@pasv", "STOR k.txt",
                "SIZE a.txt"], "bytes"),
+        # --- classes added by the white-box mutation audit (harness/mutants/C54)
+        {"op": "seg", "cwd": ["a"], "path": "..\r/x"},
+        {"op": "seg", "cwd": [], "path": "a/..\t"},
+        {"op": "seg", "cwd": ["sub"], "path": ".\xff./.\x01./vroot-evil"},
+        {"op": "seg", "cwd": [], "path": "..%2fvroot-evil%2fsecret.txt"},
+        {"op": "seg", "cwd": [], "path": "a/" * 33 + "../../x"},
+        {"op": "seg", "cwd": ["sub"], "path": "/".join(["a"] * 64 + [".."] * 66)},
+        {"op": "seg", "cwd": [], "path": "A" * 256 + "/../" + "\xe9" * 4096 + ".."},
+        S(U + ["SIZE .\xff./vroot-evil/secret.txt", "DELE .\t./vroot-evil/secret.txt", "SIZE .\x01./secret.txt", "CWD sub/.\xff.",
+               "SIZE ..%2fvroot-evil%2fsecret.txt", "DELE x%2F..%2F..%2Fsecret.txt", "@pasv", "STOR sub/..\t", "@pasv", "STOR ..\xa0",
+               "MKD ..\r", "RNFR a.txt", "RNTO ..\x85/a.txt", "CWD " + "sub/../" * 40 + "..", "SIZE " + "sub/" * 33 + "../" * 34 + "secret.txt"]),
+        S(U + ["SIZE ..;type=i", "@pasv", "RETR sub/..;type=a", "CWD sub", "@pasv", "RETR ..;type=i\n", "SIZE ..::$DATA", "MDTM ..;1",
+               "DELE ../..~1", "@pasv", "LIST .. .", "@pasv", "NLST \t..", "RNFR a.txt", "RNTO file:..", "MKD ..#x", "RMD \\\\?\\.."]),
+        S(U + ["CWD sub", "SIZE \xc0\xae\xc0\xae/vroot-evil/secret.txt", "MKD %2e%2E", "DELE ..\\..\\secret.txt", "@pasv", "RETR .\xad./a.txt",
+               "@pasv", "LIST .\x00.", "@pasv", "NLST ..\x1f/*"], "bytes"),
+        S(U + ["RMD /", "PWD", "MKD /", "RMD .", "CWD /", "MKD x", "RMD x", "RMD /", "SIZE /", "@pasv", "LIST"], "text", "same", "empty"),
+        S(U + ["RMD /", "RMD ..", "SIZE /", "MKD n1/n2", "RMD n1/n2", "RMD n1", "RMD /"], "bytes", "sub", "sub/deep/deeper"),
+        S(U + ["RMD deeper", "DELE c.txt", "RMD /", "MKD /", "CDUP", "RMD ../deep"], "text", "same", "sub/deep"),
+        S(U + ["SIZE a.txt", "@pasv", "RETR a.txt", "CWD sub", "USER anonymous", "PASS x", "SIZE a.txt", "@pasv", "RETR a.txt", "CWD sub",
+               "@pasv", "LIST /"], "text", "sub"),
+        S(A + ["SIZE b.txt", "@pasv", "RETR b.txt", "USER user", "PASS pw", "SIZE b.txt", "DELE b.txt", "USER anonymous", "PASS x",
+               "SIZE b.txt"], "bytes", "sub", "empty"),
         S(U + ["SIZE \xe9.txt", "MKD \xff\xdf", "CWD \xff\xdf", "MKD a\rb", "CWD sp ace", "CWD /sp ace", "SIZE /sp ace", "CWD a\\..\\..", "MKD ..\\x"]),
     ]
 
@@ -669,7 +902,7 @@ def generate(rng, tier):
 
 def search(rng, tier, disagreeing):
     """exhaustive short paths over the pieces that matter, for every path command, from three working directories"""
-    pieces = ["..", ".", "", "sub", "vroot-evil", "a.txt", "\0", "secret.txt"]
+    pieces = ["..", ".", "", "sub", "vroot-evil", "a.txt", "\0", "secret.txt", "..\r", ".\xff.", "..%2f..", "\t.."]
     paths = set()
     for a in pieces:
         for b in pieces:
@@ -690,6 +923,12 @@ def search(rng, tier, disagreeing):
                     lines += ["CWD " + p, "SIZE " + p, "@pasv", "RETR " + p, "@pasv", "STOR " + p, "@pasv", "LIST " + p,
                               "@pasv", "NLST " + p, "MKD " + p, "RNFR " + p, "RNTO " + p, "DELE " + p, "RMD " + p]
                 yield S(lines, mode)
+    for _ in range(300):
+        yield {"op": "seg", "cwd": rng.choice(DOWNS), "path": gen_decorated_path(rng) if rng.random() < 0.6 else gen_long_path(rng, 1000)}
+    for home in HOMES[1:]:
+        for mode in ("text", "bytes"):
+            yield S(["USER user", "PASS pw", "RMD /", "MKD /", "RMD deeper", "DELE c.txt", "RMD /", "RMD .", "MKD x/y", "RMD x/y", "RMD x", "RMD /"],
+                    mode, "same", home)
     for c in disagreeing[:20]:
         yield c
 
